@@ -105,20 +105,22 @@ def weaken(tn, eps):
 WEAK_EPS = [2.0 ** -10, 2.0 ** -13, 2.0 ** -17, 2.0 ** -20, 2.0 ** -23]  # 1e-3 .. 1e-7
 
 
-def build_state(rng, kind=None, big=True, weak=None):
-    """returns dict(tn, kind, sites, phys={site: dim}, is1d, cyclic)"""
+def build_state(rng, kind=None, big=True, weak=None, ids=None):
+    """returns dict(tn, kind, sites, phys={site: dim}, is1d, cyclic); ids(kind) -> constructor keywords
+    site_ind_id / site_tag_id (the network's naming scheme; default: quimb's 'k{}' / 'I{}')"""
     import quimb.tensor as qtn
 
     kind = kind or rng.choice(["mps", "mps", "mps_cyclic", "peps", "graph", "graph"])
     cplx = rng.random() < 0.35
+    idkw = ids(kind) if ids is not None else {}
     if kind in ("mps", "mps_cyclic"):
         L = rng.randint(2, 5) if kind == "mps" else rng.randint(3, 5)
-        tn = qtn.MPS_rand_state(L, 2, phys_dim=2, cyclic=(kind == "mps_cyclic"), seed=rng.randint(0, 10**6))
+        tn = qtn.MPS_rand_state(L, 2, phys_dim=2, cyclic=(kind == "mps_cyclic"), seed=rng.randint(0, 10**6), **idkw)
         sites = list(range(L))
         bond_choices = [1, 2, 2, 3] if L <= 4 else [1, 2, 2]
     elif kind == "peps":
         Lx, Ly = rng.choice([(2, 2), (2, 2), (2, 3)] if big else [(2, 2)])
-        tn = qtn.PEPS.rand(Lx, Ly, bond_dim=2, phys_dim=2, seed=rng.randint(0, 10**6))
+        tn = qtn.PEPS.rand(Lx, Ly, bond_dim=2, phys_dim=2, seed=rng.randint(0, 10**6), **idkw)
         sites = list(tn.sites)
         bond_choices = [1, 2, 2, 2] if Lx * Ly > 4 else [1, 2, 2, 3]
     else:
@@ -130,7 +132,7 @@ def build_state(rng, kind=None, big=True, weak=None):
         extra = [(a, b) for a in nodes for b in nodes if a < b and (a, b) not in edges]
         rng.shuffle(extra)
         edges += extra[: rng.randint(0, min(2, len(extra)))]
-        tn = qtn.TN_from_edges_rand(edges, D=2, phys_dim=2, seed=rng.randint(0, 10**6))
+        tn = qtn.TN_from_edges_rand(edges, D=2, phys_dim=2, seed=rng.randint(0, 10**6), **idkw)
         sites = list(tn.sites)
         bond_choices = [1, 2, 2, 3] if n <= 4 else [1, 2, 2]
     phys = {s: rng.choice([2, 2, 3]) for s in sites}
@@ -452,6 +454,7 @@ class Collector:
     def __init__(self):
         self.cases = []
         self.info = {}
+        self.route_seen = set()
 
     def add(self, desc, expr, kind):
         cid = len(self.cases) + 1
@@ -890,6 +893,13 @@ def oracle_case(ctx, col, stream, n):
     if is1d and ng == 2 and contract == "split" and rng.random() < 0.3 and abs(sites.index(where[0]) - sites.index(where[1])) == 1:
         api = "gate_split"
     ptag = rng.choice(["sites", "register", False, True])
+    # (transpose, dagger) on the MPS routes too (own generator: the older draws keep their values)
+    rng3 = random.Random(f"{ctx.seed}:{stream}:{n}:mps_route_variant")
+    if api == "gate" and is1d and ng >= 2 and variant == "plain" and contract in ("swap+split", "nonlocal", "auto-mps") \
+            and rng3.random() < 0.5:
+        submpo = contract == "nonlocal" or (contract == "auto-mps" and ng >= 3)
+        variant = rng3.choice(VARIANTS[1:] if (not submpo or nonlocal_reads_dagger()) else ["transpose"])
+        G, gclass, unitary = asym_gate(rng3, dims, G, gclass, unitary)
     inds = tuple(tn.site_ind(s) for s in where)
     outs = tuple(tn.site_ind(s) for s in sites)
     kw = kw_of(variant)
@@ -974,6 +984,7 @@ def oracle_case(ctx, col, stream, n):
         return
     if api == "gate" and act in ("ALazySplitGate", "ALazySwapSplitGate"):
         tags_case(ctx, col, desc, before, after, inds, where, contract, ptag, ["G"])
+        split_labels_case(col, desc, before, after, inds, act == "ALazySwapSplitGate")
     if api == "gate":
         nettags_case(ctx, col, desc, before, after, inds, act, ["G"])
     if api == "gate" and act == "ALazy":
@@ -1052,6 +1063,351 @@ def weak_swap_case(ctx, col, n):
                           f"{mode} with truncation switched off is not exact on a weakly entangled state (relative error {err})", desc)
 
 
+# ----------------------------------------------------------------------------
+# naming: the network's own naming scheme and labels that coincide with names the library uses internally
+
+KEY_SPLIT_GATE_B = "gate_inds:lazy_split_gate:outer_label_named_b:outer_labels"
+KEY_NONLOCAL_SITE_TAGS = "gate_nonlocal:site_tag_id=custom:submpo_left_uncontracted"
+INTERNAL_NAMES = ["b", "l0", "l1", "r0", "r1", "__tmp__"]  # fixed names in gating.py / tn1d/core.py
+IND_IDS = {1: ["k{}", "q{}", "b{}", "phys{}", "l{}"], 2: ["k{},{}", "q{},{}", "b{},{}"]}
+TAG_IDS = {1: ["I{}", "S{}", "Q{}", "G{}"], 2: ["I{},{}", "S{},{}"]}
+
+
+def split_labels_case(col, desc, before, after, inds, swap):
+    """label structure of the lazily attached SPLIT gate == model split_gate_labels, with the bond label the
+    implementation actually used (theorem C06_split_gate_outer_preserved needs that label to be unused)"""
+    new = [tid for tid in after.tensor_map if tid not in before.tensor_map]
+    if len(new) != 2 or len(inds) != 2:
+        return None
+    g0 = [tid for tid in new if inds[0] in after.tensor_map[tid].inds]
+    g1 = [tid for tid in new if inds[1] in after.tensor_map[tid].inds]
+    if len(g0) != 1 or len(g1) != 1 or g0 == g1:
+        return None
+    t0, t1 = after.tensor_map[g0[0]], after.tensor_map[g1[0]]
+    common = [i for i in t0.inds if i in t1.inds]
+    if len(common) != 1:
+        return None
+    bond = common[0]
+    namer = tm.Namer()
+    tn_l = [[namer(i) for i in t.inds] for t in before.tensor_map.values()]
+    base = len(namer.ids)
+    # fresh label k = the new label on the old holder of target k
+    fresh = {}
+    for k, ix in enumerate(inds):
+        (holder,) = before.ind_map[ix]
+        newl = [i for i in after.tensor_map[holder].inds if i not in before.tensor_map[holder].inds]
+        if len(newl) != 1:
+            return None
+        fresh[newl[0]] = base + k
+    bid = namer.ids[bond] if bond in namer.ids else base + 2
+    lab = lambda i: fresh[i] if i in fresh else (bid if i == bond else namer.ids[i])
+    try:
+        impl = [[lab(i) for i in t0.inds], [lab(i) for i in t1.inds]] + \
+               [[lab(i) for i in after.tensor_map[tid].inds] for tid in before.tensor_map]
+    except KeyError:
+        return None
+    lit = lambda ll: "[" + "; ".join(natlist(l) for l in ll) + "]"
+    col.add({**desc, "split_gate_bond_label": bond},
+            f"sets_eq (split_gate_labels {'true' if swap else 'false'} {bid} {lit(tn_l)} {namer.ids[inds[0]]} {namer.ids[inds[1]]}) "
+            f"{lit(impl)}", "split_gate_labels")
+    return bond
+
+
+def naming_stream(ctx, col):
+    for n in range(ctx.n(240, 2400)):
+        naming_case(ctx, col, n)
+
+
+def naming_case(ctx, col, n):
+    """the property quantifies over networks, not over quimb's default names: site_ind_id / site_tag_id other than
+    'k{}' / 'I{}', and extra labels (a dangling open label, or a renamed bond) that coincide with names the library
+    hard-codes internally.  Every mode the geometry accepts; oracle = numpy embedding (1e-9, a test); outer labels,
+    naming scheme and - for the MPS routes - the MPS form (one tensor per site, no foreign tags) compared exactly."""
+    rng = random.Random(f"{ctx.seed}:naming:{n}")
+    rng_id = random.Random(f"{ctx.seed}:naming:{n}:ids")
+    chosen = {}
+
+    def ids(kind):
+        nph = 2 if kind == "peps" else 1
+        chosen["nph"] = nph
+        if n % 4 == 0:   # default scheme, only the extra label is unusual
+            chosen["ids"] = (IND_IDS[nph][0], TAG_IDS[nph][0])
+        else:
+            chosen["ids"] = (rng_id.choice(IND_IDS[nph]), rng_id.choice(TAG_IDS[nph]))
+        return {"site_ind_id": chosen["ids"][0], "site_tag_id": chosen["ids"][1]}
+
+    st = build_state(rng, big=False, ids=ids)
+    tn, sites, phys, is1d = st["tn"], st["sites"], st["phys"], st["is1d"]
+    nph = chosen["nph"]
+    ind_id, tag_id = chosen["ids"]
+    ng = min(rng.choice([1, 2, 2, 2, 3]), len(sites))
+    where = None
+    if ng == 2 and rng.random() < 0.6:
+        where = _connected_pair(rng, tn, sites)
+    where = where or pick_where(rng, sites, k=ng)
+    ng = len(where)
+    inds = tuple(tn.site_ind(s_) for s_ in where)
+    dims = [phys[s_] for s_ in where]
+    G, gclass, unitary = build_gate(rng, dims)
+    variant = rng.choice(VARIANTS) if rng.random() < 0.4 else "plain"
+    if variant != "plain":
+        G, gclass, unitary = asym_gate(rng, dims, G, gclass, unitary)
+    api = rng.choice(["gate", "gate", "gate_inds"])
+    facts = geometry_facts(tn, inds, G)
+    modes = [c for c in (MODES if (is1d and api == "gate") else MODES[:7])
+             if not must_reject(is1d and api == "gate", c, ng, facts)]
+    contract = rng.choice(modes)
+    mps_modes = [c for c in modes if c in ("swap+split", "nonlocal", "auto-mps")]
+    if mps_modes and ng >= 2 and rng.random() < 0.4:
+        contract = rng.choice(mps_modes)
+    mps_route = is1d and api == "gate" and ng >= 2 and contract in ("swap+split", "nonlocal", "auto-mps")
+    submpo = mps_route and (contract == "nonlocal" or (contract == "auto-mps" and ng >= 3))
+    if submpo and variant in ("dagger", "both") and not nonlocal_reads_dagger():
+        variant = "transpose"   # registered separately (KEY_NONLOCAL_DAGGER, options stream)
+    # the extra label
+    extra_kind = rng.choice(["dangling", "dangling", "bond", None])
+    if mps_route and extra_kind == "dangling":
+        extra_kind = "bond"     # the MPS routes are documented for matrix product states (no further open labels)
+    free = [x for x in INTERNAL_NAMES if x not in tn.ind_map]   # (site_ind_id 'l{}' makes l0, l1 site labels)
+    name = rng.choice(free) if free else None
+    if name is None:
+        extra_kind = None
+    extra = None
+    if extra_kind == "dangling":
+        t = rng.choice(list(tn.tensors))
+        d = rng.choice([2, 3])
+        coef = [1.0, -1.0, 2.0][:d]
+        t.modify(data=np.stack([np.asarray(t.data) * c for c in coef], axis=-1), inds=(*t.inds, name))
+        extra = (name, d)
+    elif extra_kind == "bond":
+        inner = sorted(tn.inner_inds())
+        if inner:
+            tn.reindex_({rng.choice(inner): name})
+        else:
+            extra_kind = None
+    kw = kw_of(variant)
+    outs = tuple(tn.site_ind(s_) for s_ in sites) + ((extra[0],) if extra else ())
+    dall = [phys[s_] for s_ in sites] + ([extra[1]] if extra else [])
+    pos = [sites.index(s_) for s_ in where]
+    desc = {"stream": "naming", "n": n, "geometry": st["kind"], "phys": [phys[s_] for s_ in sites], "where": [str(w) for w in where],
+            "site_ind_id": ind_id, "site_tag_id": tag_id, "extra_label": name if extra_kind else None, "extra_label_kind": extra_kind,
+            "gate": gclass, "api": api, "variant": variant, "contract": mkey(contract)}
+    keyp = f"{api}:{st['kind']}:contract={mkey(contract)}:naming"
+    ctx.count(("naming", json.dumps(desc, sort_keys=True, default=str)), not np.allclose(G, np.eye(G.shape[0])))
+    ctx.bump("naming:ids:" + ("default" if (ind_id, tag_id) == (IND_IDS[nph][0], TAG_IDS[nph][0]) else "custom"))
+    ctx.bump("naming:extra:" + str(extra_kind))
+    ctx.bump("contract:" + mkey(contract))
+    before = tn.copy()
+    want = apply_on_axes(eff_gate(G, **kw), dall, pos, dense_of(before, outs))
+    try:
+        with Spy() as spy, warnings.catch_warnings():
+            warnings.simplefilter("ignore")
+            if api == "gate":
+                after = tn.gate(G, where if ng > 1 else where[0], contract=contract, cutoff=0.0, **kw)
+            else:
+                after = tn.gate_inds(G, inds, contract=contract, cutoff=0.0, **kw)
+            ev = spy.ev
+    except Exception as e:
+        ctx.violation(f"{keyp}:raised", f"{api} raised {type(e).__name__}: {str(e)[:160]}", desc)
+        return
+    act = observed_action(ev, False, before, after, inds)
+    desc["action"] = act
+    bond = None
+    if act in ("ALazySplitGate", "ALazySwapSplitGate"):
+        bond = split_labels_case(col, desc, before, after, inds, act == "ALazySwapSplitGate")
+    ob, oa = set(before.outer_inds()), set(after.outer_inds())
+    if ob != oa:
+        if bond is not None and bond in before.ind_map and (ob ^ oa) == {bond}:
+            # the bond label of the split gate is a FIXED name that the network already uses for an open label
+            ctx.violation(KEY_SPLIT_GATE_B if bond == "b" else f"{keyp}:split_gate_bond_label_in_use:outer_labels",
+                          f"the split gate's bond is named {bond!r}, which is an open label of the network: it is no longer open", desc)
+        else:
+            ctx.violation(f"{keyp}:outer_labels", f"outer labels changed: {sorted(ob ^ oa)}", desc)
+        return
+    if after.site_ind_id != ind_id or after.site_tag_id != tag_id or \
+            any(after.site_ind(s_) not in oa or before.site_tag(s_) not in after.tag_map for s_ in sites):
+        ctx.violation(f"{keyp}:naming_scheme", "site_ind_id / site_tag_id or a site's label / tag is not preserved", desc)
+        return
+    if act in ("AAutoSwap", "ANonlocal", "ASingleSite", "ASplit", "AReduceSplit"):
+        # structure-preserving modes: still one tensor per site, nothing but the network's own tags
+        ok = after.num_tensors == before.num_tensors and set(after.tags) <= set(before.tags) and \
+            all(len(after.select_tensors(before.site_tag(s_))) == len(before.select_tensors(before.site_tag(s_))) for s_ in sites)
+        if not ok:
+            stray = sorted(set(after.tags) - set(before.tags))
+            if act == "ANonlocal" and tag_id != "I{}" and stray and all(re.fullmatch(r"I\d+", t_) for t_ in stray):
+                ctx.violation(KEY_NONLOCAL_SITE_TAGS, f"the sub-MPO built with the default site_tag_id stays uncontracted "
+                              f"({after.num_tensors} tensors, stray tags {stray}) on an MPS with site_tag_id={tag_id!r}", desc)
+            else:
+                ctx.violation(f"{keyp}:structure", f"{act}: {before.num_tensors} -> {after.num_tensors} tensors, stray tags {stray}", desc)
+            # the dense form is still compared below
+    try:
+        got = dense_of(after, outs)
+        ok = got.shape == want.shape and np.allclose(got, want, rtol=1e-9, atol=1e-9 * max(1.0, np.abs(want).max()))
+    except Exception as e:
+        ok = False
+        desc["oracle_error"] = f"{type(e).__name__}: {str(e)[:120]}"
+    if not ok:
+        ctx.violation(f"{keyp}:value", f"dense(after) != (operator on sites {list(map(str, where))}) @ dense(before)", desc)
+
+
+def build_weak_mpo(rng, eps):
+    """integer / dyadic open MPO, L 3-5, mixed physical dims; eps: operator-Schmidt values (1, ~eps, ..) across every bond"""
+    import quimb.tensor as qtn
+
+    L = rng.randint(3, 5)
+    cplx = rng.random() < 0.35
+    tn = qtn.MPO_rand(L, 2, phys_dim=2, seed=rng.randint(0, 10**6))
+    sites = list(range(L))
+    phys = {s_: rng.choice([2, 2, 3]) for s_ in sites}
+    if L >= 5:
+        phys = {s_: (d if i < 2 else 2) for i, (s_, d) in enumerate(phys.items())}
+    pmap = {}
+    for s_ in sites:
+        pmap[tn.upper_ind(s_)] = phys[s_]
+        pmap[tn.lower_ind(s_)] = phys[s_]
+    bsize = {}
+
+    def size_of(ix):
+        if ix in pmap:
+            return pmap[ix]
+        if ix not in bsize:
+            bsize[ix] = rng.choice([1, 2, 2, 3] if L <= 4 else [1, 2, 2])
+        return bsize[ix]
+
+    refill(tn, rng, cplx, size_of)
+    if eps is not None:
+        weaken(tn, eps)
+    return {"tn": tn, "kind": "mpo", "sites": sites, "phys": phys, "cplx": cplx}
+
+
+def mpo_swap_stream(ctx, col):
+    """operator-like 1D networks through the structure-preserving sandwich modes, truncation switched off"""
+    for n in range(ctx.n(90, 900)):
+        mpo_swap_case(ctx, col, n)
+
+
+def mpo_swap_case(ctx, col, n):
+    """MatrixProductOperator.gate_sandwich_with_auto_swap (swap together, sandwich, split, swap back) and the
+    pair-splitting sandwich / upper / lower gates on adjacent sites, on MPOs whose correlations are weak
+    (operator-Schmidt values 1, 2^-10 .. 2^-23: a truncation at any library default instead of the caller's
+    cutoff=0 shows) or O(1).  Oracle: dense numpy embedding IG X IG^dagger, tolerance 1e-11 of the largest entry
+    (round-off of the decompositions) - a test, not a theorem; the forwarding of the options to every split and the
+    site permutation without swap_back are compared exactly with the model inside Coq."""
+    rng = random.Random(f"{ctx.seed}:mposwap:{n}")
+    eps = WEAK_EPS[n % len(WEAK_EPS)] if n % 4 else None
+    st = build_weak_mpo(rng, eps)
+    tn, sites, phys = st["tn"], st["sites"], st["phys"]
+    L = len(sites)
+    a, b = rng.sample(sites, 2)
+    while (abs(a - b) < 2) != (n % 3 == 2):  # every third case: neighbours (no swaps), else distant, either order
+        a, b = rng.sample(sites, 2)
+    where = (a, b)
+    adjacent = abs(a - b) == 1
+    dims = [phys[a], phys[b]]
+    G, gclass, _ = build_gate(rng, dims, gclass=rng.choice(["int", "gauss", "perm", "diagperm", "lowrank", "product"]))
+    dagger = rng.random() < 0.5
+    if dagger:
+        G, gclass, _ = asym_gate(rng, dims, G, gclass, False)
+    api = "gate_sandwich_with_auto_swap"
+    if adjacent and rng.random() < 0.5:
+        api = rng.choice(["gate_sandwich", "gate:upper", "gate:lower"])
+    contract = rng.choice(["split", "reduce-split"])
+    swap_back = rng.random() < 0.7
+    strip = rng.random() < 0.3
+    inplace = rng.random() < 0.3
+    absorb = rng.choice([None, None, "left", "right"])
+    opts = {"cutoff": 0.0}
+    if rng.random() < 0.5:
+        opts["max_bond"] = None
+    info = rng.choice([None, {}, {"cur_orthog": "calc"}])
+    desc = {"stream": "mposwap", "n": n, "geometry": "mpo", "phys": [phys[s_] for s_ in sites], "where": list(where),
+            "gate": gclass, "api": api, "dagger": dagger, "contract": contract, "opts": dict(opts),
+            "weak_correlation_eps": eps, "complex": st["cplx"]}
+    if api == "gate_sandwich_with_auto_swap":
+        desc.update({"swap_back": swap_back, "strip_exponent": strip, "inplace": inplace, "absorb": absorb,
+                     "info": None if info is None else dict(info)})
+    keyp = f"{api}:mpo:contract={contract}"
+    ctx.count(("mposwap", json.dumps(desc, sort_keys=True, default=str)), True)
+    ctx.bump("mposwap:" + api + (":adjacent" if adjacent else ":distant"))
+    outs = tuple(tn.upper_ind(s_) for s_ in sites) + tuple(tn.lower_ind(s_) for s_ in sites)
+    dall = [phys[s_] for s_ in sites] * 2
+    pu = [sites.index(s_) for s_ in where]
+    pl = [L + p_ for p_ in pu]
+    v0 = dense_of(tn, outs)
+    U = G.conj().T if dagger else G
+    if api in ("gate_sandwich_with_auto_swap", "gate_sandwich"):
+        want = apply_on_axes(U.conj(), dall, pl, apply_on_axes(U, dall, pu, v0))    # U X U^dagger
+    elif api == "gate:upper":
+        want = apply_on_axes(U, dall, pu, v0)                                       # U X
+    else:
+        want = apply_on_axes(U, dall, pl, v0)                                       # X U^T
+    before = tn.copy()
+    call_opts = dict(opts)
+    if absorb is not None and api == "gate_sandwich_with_auto_swap":
+        call_opts["absorb"] = absorb
+    try:
+        with Spy() as spy, warnings.catch_warnings():
+            warnings.simplefilter("ignore")
+            if api == "gate_sandwich_with_auto_swap":
+                kws = dict(dagger=dagger, swap_back=swap_back, strip_exponent=strip, contract=contract, inplace=inplace, **call_opts)
+                if info is not None:
+                    kws["info"] = info
+                after = tn.gate_sandwich_with_auto_swap(G, where, **kws)
+            elif api == "gate_sandwich":
+                after = tn.gate_sandwich(G, where, contract=contract, dagger=dagger, **call_opts)
+            else:
+                after = tn.gate(G, where, which=api.split(":")[1], contract=contract, dagger=dagger, **call_opts)
+            ev = spy.ev
+    except Exception as e:
+        ctx.violation(f"{keyp}:raised", f"{api} raised {type(e).__name__}: {str(e)[:160]}", desc)
+        return
+    if api == "gate_sandwich_with_auto_swap":
+        if inplace and after is not tn:
+            ctx.violation(f"{keyp}:inplace_returns_other_object", "inplace=True did not return the object it modified", desc)
+            return
+        if not inplace and (after is tn or not np.array_equal(dense_of(tn, outs), v0) or tn.exponent != before.exponent):
+            ctx.violation(f"{keyp}:input_modified", "inplace=False modified / returned its input", desc)
+            return
+        # every split works with the caller's options and one absorb choice (model: sandwich_auto_swap_splits)
+        obs = []
+        for tag, k in ev:
+            if tag != "tsplit" or not isinstance(k, dict):
+                continue
+            same = k.get("cutoff", "absent") == opts.get("cutoff", "absent") and ("max_bond" in k) == ("max_bond" in opts)
+            obs.append(f"({'true' if k.get('absorb') == 'left' else 'false'}, {1 if same else 0}%nat)")
+        user = "None" if absorb is None else f"(Some {'true' if absorb == 'left' else 'false'})"
+        col.add({**desc, "splits_observed": obs},
+                f"bn_eqb (sandwich_auto_swap_splits {where[0]}%nat {where[1]}%nat {user} {'true' if swap_back else 'false'} 1%nat) "
+                f"[{'; '.join(obs)}]", "option_forwarding")
+        if not strip and float(after.exponent) != float(before.exponent):
+            ctx.violation(f"{keyp}:exponent", "stored exponent changed without strip_exponent", desc)
+    if set(after.outer_inds()) != set(outs):
+        ctx.violation(f"{keyp}:outer_labels", f"outer labels changed: {sorted(set(after.outer_inds()) ^ set(outs))}", desc)
+        return
+    if after.num_tensors != L or any(len(after.select_tensors(before.site_tag(s_))) != 1 for s_ in sites) \
+            or not set(after.tags) <= set(before.tags):
+        ctx.violation(f"{keyp}:mpo_form", "the result is no longer one tensor per site carrying that site's tag", desc)
+        return
+    if any(set(after[s_].inds) & set(outs) != {after.upper_ind(s_), after.lower_ind(s_)} for s_ in sites):
+        ctx.violation(f"{keyp}:site_labels", "a site tensor does not carry exactly its own upper / lower label", desc)
+        return
+    if api == "gate_sandwich_with_auto_swap" and not swap_back and not adjacent:
+        i, j = sorted(pu)
+        order = list(range(L))
+        order.remove(j)
+        order.insert(i + 1, j)  # position p now holds original site order[p]
+        want = np.transpose(want.reshape(dall), order + [L + o for o in order]).reshape(-1)
+        col.add(desc, f"nl_eqb (auto_swap_order {L} {pu[0]} {pu[1]} false) {natlist(order)}", "swap_order")
+        if [after.ind_size(o) for o in outs] != [dall[o] for o in order] * 2:
+            ctx.violation(f"{keyp}:swap_back=False:dims", "physical dimensions after the un-swapped gate are not the shifted ones", desc)
+            return
+    got = dense_of(after, outs)
+    if got.shape != want.shape or not np.allclose(got, want, rtol=0.0, atol=1e-11 * max(1.0, np.abs(want).max())):
+        err = float(np.abs(got - want).max() / max(1.0, np.abs(want).max())) if got.shape == want.shape else "shape"
+        ctx.violation(f"{keyp}:cutoff=0:{'weakly_correlated:' if eps else ''}value",
+                      f"{api} with truncation switched off is not IG X IG^dagger (relative error {err})", desc)
+
+
 def simple_case(ctx, stream, n):
     """simple-update gate (gate_simple): the state is the network with the gauges inserted"""
     rng = random.Random(f"{ctx.seed}:{stream}:{n}")
@@ -1117,8 +1473,10 @@ def _connected_pair(rng, tn, sites):
     return rng.choice(pairs) if pairs else None
 
 
-def _opt_call(ctx, api, desc, obj, call, inplace, outs, want, keyp, tol_scale=1.0, expect_raise=False):
-    """one call of an entry point with one full option assignment: value, outer labels, in-place semantics"""
+def _opt_call(ctx, api, desc, obj, call, inplace, outs, want, keyp, tol_scale=1.0, expect_raise=False, alt=None):
+    """one call of an entry point with one full option assignment: value, outer labels, in-place semantics.
+    Returns the dense result (None if there is none).  `alt` = (key, vector): a result equal to that vector
+    (and not to `want`) is reported under `key` (a registered defect class) instead of `keyp`:value"""
     ctx.count((api, json.dumps(desc, sort_keys=True, default=str)), True)
     ctx.bump("options:" + api)
     d_before = dense_of(obj, outs)
@@ -1150,15 +1508,56 @@ def _opt_call(ctx, api, desc, obj, call, inplace, outs, want, keyp, tol_scale=1.
     got = dense_of(res, outs)
     if got.shape != want.shape or not np.allclose(got, want, rtol=1e-9, atol=1e-9 * tol_scale * max(1.0, np.abs(want).max())):
         err = float(np.abs(got - want).max()) if got.shape == want.shape else "shape"
-        ctx.violation(f"{keyp}:value", f"{api}: dense(after) != effective operator @ dense(before) [max err {err}]", desc)
+        if alt is not None and got.shape == alt[1].shape and np.allclose(got, alt[1], rtol=1e-9, atol=1e-9 * max(1.0, np.abs(want).max())):
+            ctx.violation(alt[0], f"{api}: {alt[2]} [max err {err}]", desc)
+        else:
+            ctx.violation(f"{keyp}:value", f"{api}: dense(after) != effective operator @ dense(before) [max err {err}]", desc)
+    return got
 
 
-def options_stream(ctx):
+KEY_NONLOCAL_DAGGER = "gate:mps:contract=nonlocal:dagger=True:ignored"
+OPK = {"plain": "OpG", "transpose": "OpGT", "conj": "OpGconj", "dagger": "OpGdag"}
+
+
+def nonlocal_reads_dagger():
+    """does MatrixProductState.gate_nonlocal have a `dagger` parameter (model flag nl_dagger)?"""
+    import inspect
+
+    import quimb.tensor as qtn
+
+    try:
+        return "dagger" in inspect.signature(qtn.MatrixProductState.gate_nonlocal).parameters
+    except (TypeError, ValueError):
+        return False
+
+
+def route_case(ctx, col, desc, c, ng, v, got, cands):
+    """which of G, G^T, conj G, G^dagger did gate_TN_1D apply?  == model gate_1d_op (exact, inside Coq)"""
+    if got is None:
+        return
+    tol = 1e-9 * max(1.0, max(float(np.abs(w).max()) for w in cands.values()))
+    obs = [k for k, w in cands.items() if got.shape == w.shape and np.allclose(got, w, rtol=0.0, atol=tol)]
+    if len(obs) != 1:
+        return  # no / ambiguous operator: the value oracle has already reported it
+    kw = kw_of(v)
+    sig = (mkey(c), ng, v, obs[0])
+    ctx.bump("route_options:" + ("documented_operator" if obs[0] == ("dagger" if v == "both" else v) else "as_coded_differs_from_documented"))
+    if sig in col.route_seen:  # the model only looks at (mode, arity, flags): one Coq case per distinct observation
+        return
+    col.route_seen.add(sig)
+    col.add({**desc, "operator_applied": obs[0]},
+            f"opkind_eqb (gate_1d_op {'true' if nonlocal_reads_dagger() else 'false'} {CM[mkey(c)]} {ng} "
+            f"{'true' if kw.get('transpose') else 'false'} {'true' if kw.get('dagger') else 'false'}) {OPK[obs[0]]}",
+            "route_options")
+
+
+def options_stream(ctx, col):
     """EVERY combination of the boolean / enum options of each gating entry point, with complex gates that
     tell G, G^T, conj G and G^dagger apart (oracle: plain numpy embedding, tolerance 1e-9, cutoff=0)"""
     import quimb.tensor as qtn
 
     TF = (False, True)
+    nl_dagger = nonlocal_reads_dagger()
     for rep in range(ctx.n(1, 5)):
         rng = random.Random(f"{ctx.seed}:options:{rep}")
         # ---- vector-like networks
@@ -1187,19 +1586,42 @@ def options_stream(ctx):
                     _opt_call(ctx, "gate_inds", desc, tn0.copy(),
                               lambda t, c=c, v=v, tags=tags, ip=ip: t.gate_inds(G, inds, contract=c, tags=tags, inplace=ip, cutoff=0.0, **kw_of(v)),
                               ip, outs, wants[v], f"gate_inds:options:variant={v}:contract={mkey(c)}")
-                # gate: contract x transpose x dagger x propagate_tags x tags x inplace
+                # gate: contract x transpose x dagger x propagate_tags x tags x inplace - EVERY mode of the geometry
+                # with every (transpose, dagger) pair, the MPS routes ('swap+split', 'nonlocal', 'auto-mps') included:
+                # the flags reach them inside the compress_opts keywords (model: route_opts)
+                cands = {**{k: wants[k] for k in ("plain", "transpose", "dagger")},
+                         "conj": apply_on_axes(np.conj(G), dall, pos, d0)}
                 for c in (MODES if is1d else MODES[:7]):
-                    mps_route = c in ("swap+split", "nonlocal", "auto-mps") and ng > 1
-                    # the swap / sub-MPO routes offer no dagger; 'nonlocal' offers transpose
-                    vs = (["plain", "transpose"] if (c == "nonlocal") else ["plain"]) if mps_route else VARIANTS
-                    for v, ptag, tags, ip in itertools.product(vs, ("sites", "register", False, True), (None, ["G"]), TF):
+                    for v, ptag, tags, ip in itertools.product(VARIANTS, ("sites", "register", False, True), (None, ["G"]), TF):
                         desc = {**base, "api": "gate", "contract": mkey(c), "variant": v, "propagate_tags": mkey(ptag), "tags": tags, "inplace": ip}
-                        _opt_call(ctx, "gate", desc, tn0.copy(),
-                                  lambda t, c=c, v=v, ptag=ptag, tags=tags, ip=ip: t.gate(
-                                      G, where if ng > 1 else where[0], contract=c, propagate_tags=ptag, tags=tags, inplace=ip,
-                                      cutoff=0.0, **kw_of(v)),
-                                  ip, outs, wants[v], f"gate:options:variant={v}:contract={mkey(c)}",
-                                  expect_raise=must_reject(is1d, c, ng, facts))
+                        got = _opt_call(ctx, "gate", desc, tn0.copy(),
+                                        lambda t, c=c, v=v, ptag=ptag, tags=tags, ip=ip: t.gate(
+                                            G, where if ng > 1 else where[0], contract=c, propagate_tags=ptag, tags=tags, inplace=ip,
+                                            cutoff=0.0, **kw_of(v)),
+                                        ip, outs, wants[v], f"gate:options:variant={v}:contract={mkey(c)}",
+                                        expect_raise=must_reject(is1d, c, ng, facts),
+                                        alt=_nonlocal_dagger_alt(is1d, c, ng, v, wants, nl_dagger))
+                        if is1d and ptag == "sites" and tags is None and not must_reject(is1d, c, ng, facts):
+                            route_case(ctx, col, desc, c, ng, v, got, cands)
+                # 1D: the same on a DISTANT pair in either order and on three sites (swaps / sub-MPO really needed)
+                if is1d and ng == 2:
+                    for wf in _far_wheres(rng, sites):
+                        dimsf = [phys[s_] for s_ in wf]
+                        Gf, gclassf, _ = asym_gate(rng, dimsf, *build_gate(rng, dimsf, gclass="gauss"))
+                        posf = [sites.index(s_) for s_ in wf]
+                        wantsf = {v: apply_on_axes(eff_gate(Gf, **kw_of(v)), dall, posf, d0) for v in VARIANTS}
+                        candsf = {**{k: wantsf[k] for k in ("plain", "transpose", "dagger")},
+                                  "conj": apply_on_axes(np.conj(Gf), dall, posf, d0)}
+                        basef = {**base, "where": [str(w) for w in wf], "gate": gclassf}
+                        for c, v, ip in itertools.product((False, True, "swap+split", "nonlocal", "auto-mps"), VARIANTS, TF):
+                            if c == "swap+split" and len(wf) != 2:
+                                continue
+                            desc = {**basef, "api": "gate", "contract": mkey(c), "variant": v, "inplace": ip}
+                            got = _opt_call(ctx, "gate", desc, tn0.copy(),
+                                            lambda t, c=c, v=v, ip=ip, Gf=Gf, wf=wf: t.gate(Gf, wf, contract=c, inplace=ip, cutoff=0.0, **kw_of(v)),
+                                            ip, outs, wantsf[v], f"gate:options:variant={v}:contract={mkey(c)}",
+                                            alt=_nonlocal_dagger_alt(True, c, len(wf), v, wantsf, nl_dagger))
+                            route_case(ctx, col, desc, c, len(wf), v, got, candsf)
                 # gate_simple: transpose x dagger x inplace (gauges empty: the state is the network itself)
                 for v, ip in itertools.product(VARIANTS, TF):
                     desc = {**base, "api": "gate_simple", "variant": v, "inplace": ip}
@@ -1288,6 +1710,29 @@ def options_stream(ctx):
                     _opt_call(ctx, "gate_sandwich_inds", desc, tn0.copy(),
                               lambda t, c=c, v=v, ip=ip, tg=tg: t.gate_sandwich_inds(G, up, lo, contract=c, inplace=ip, cutoff=0.0, **tg, **kw_of(v)),
                               ip, outs, want_for("sandwich", v), f"gate_sandwich_inds:options:variant={v}:contract={mkey(c)}")
+
+
+def _far_wheres(rng, sites):
+    """a non-adjacent pair in ascending and in descending order, and a scrambled triple"""
+    out = []
+    pairs = [(a, b) for a in sites for b in sites if abs(a - b) >= 2]
+    if pairs:
+        a, b = rng.choice(pairs)
+        out += [(min(a, b), max(a, b)), (max(a, b), min(a, b))]
+    if len(sites) >= 3:
+        out.append(tuple(rng.sample(sites, 3)))
+    return out
+
+
+def _nonlocal_dagger_alt(is1d, c, ng, v, wants, nl_dagger):
+    """registered defect class: the sub-MPO route without a `dagger` parameter applies G (G^T with transpose)"""
+    if not is1d or nl_dagger or v not in ("dagger", "both"):
+        return None
+    if not (c == "nonlocal" and ng >= 2) and not (c == "auto-mps" and ng >= 3):
+        return None
+    return (KEY_NONLOCAL_DAGGER, wants["plain" if v == "dagger" else "transpose"],
+            "gate(contract='nonlocal' / 'auto-mps' on 3+ sites, dagger=True) ignores `dagger`: it applied "
+            + ("G" if v == "dagger" else "G^T") + " instead of G^dagger")
 
 
 def _simple_with_gauges(t, G, where, inplace, kw):
@@ -1464,6 +1909,8 @@ def oracle_stream(ctx, col):
     for n in range(ctx.n(1500, 15000)):
         oracle_case(ctx, col if n < nbook else Collector(), "oracle", n)
     weak_swap_stream(ctx, col)
+    mpo_swap_stream(ctx, col)
+    naming_stream(ctx, col)
     for n in range(ctx.n(200, 2000)):
         simple_case(ctx, "simple", n)
     reject_stream(ctx, col)
@@ -1501,7 +1948,7 @@ def run(ctx):
                      "C06/Exec.vo", "C06/Props.v"])
     col = Collector()
     ctx.stage(flag_stream)
-    ctx.stage(options_stream)
+    ctx.stage(options_stream, col)
     ctx.stage(nonlocal_cutoff_stream)
     ctx.stage(exact_stream, col)
     ctx.stage(oracle_stream, col)
@@ -1532,6 +1979,10 @@ def replay(ctx, path):
         simple_case(ctx, stream, int(n))
     elif stream == "weakswap":
         weak_swap_case(ctx, col, int(n))
+    elif stream == "mposwap":
+        mpo_swap_case(ctx, col, int(n))
+    elif stream == "naming":
+        naming_case(ctx, col, int(n))
     else:
         run(ctx)
         return
